@@ -157,6 +157,27 @@ def r3(db, rep):
         rep.analysis_broken("DNS::update_records vanished")
         return
     ur = ur[0]
+    # (0) the relocation walks the records where they ARE: in every member that both relocates and grows records_data_, all
+    #     update_records calls come before the insertion that moves the bytes (afterwards the old section starts address the
+    #     gap or the middle of another record and the compression pointers behind the insertion point stay unrelocated)
+    for f in sorted(db.functions.values(), key=lambda x: x["id"]):
+        if f.get("rec") != DNS or not f.get("body"):
+            continue
+        rel = [x for x in facts.fn_nodes(f) if x["k"] == "CXXMemberCallExpr" and x.get("cname") == "update_records"]
+        grow = [x for x in facts.fn_nodes(f) if x["k"] == "CXXMemberCallExpr" and x.get("cname") in ("insert", "resize") and
+                "records_data_" in facts.expr_str(cfg.receiver(x) or x["c"][0])]
+        if not rel or not grow:
+            continue
+        g = cfg.FnCFG(f)
+        key = "%s:relocate-before-grow" % f["qual"].split("::")[-1]
+        late = [(r_, w_) for r_ in rel for w_ in grow if g.pos(r_) and g.pos(w_) and g.reachable(g.pos(w_), g.pos(r_))]
+        if late:
+            rep.violation("R3-shift", key, facts.loc(f, late[0][0]),
+                          "update_records() can run after records_data_.%s() (line %s) has already moved the records: it then walks from the old "
+                          "section start, which no longer addresses a record boundary, and the compression pointers of the records behind the "
+                          "insertion point are not relocated" % (late[0][1].get("cname"), late[0][1].get("l")))
+        else:
+            rep.ok("R3-shift", key, facts.loc(f, grow[0]), "%d relocation call(s), all before the bytes move" % len(rel))
     b = bounds.FnBounds(db, ur)
     eff = b.ref_effects(ur["id"])
     p0 = ur["params"][0]["var"]
